@@ -16,7 +16,27 @@ def prop(pid, **kw):
     PROPS[pid] = kw
 
 
-prop('C07', title='Packet decoders accept exactly the well-formed packets', level='proof',
-     bounded=[],
+NOT_APPLICABLE = {}
+
+T_DEDUCTIVE = ('contract-based deductive verification of the real functions: pyvc generates verification conditions from the real '
+               'ast against sidecar contracts (pre/post, exceptional post, loop invariants + variants, frames) and z3 discharges them '
+               'for all inputs; counter-models are replayed on the real code in CPython')
+
+prop('C07', title='Packet decoders accept exactly the well-formed packets', level='proof', bounded=[],
+     level_text='Unbounded proof, per function, that the decoders (var-number codec, outer-element check, Name.decode, UintField widths, '
+                'the generic TlvModel.parse scan for an arbitrary field list) keep every nested element inside its parent, match recognised '
+                'elements once and in order, reject unrecognised critical ones, terminate in linear time and raise only documented errors. '
+                'One open known finding (declared length overrunning the parent is truncated, not rejected) is reported on every run.',
+     level_note='Trusted: pyvc itself, z3, the builtin models (struct, bytes, memoryview, len, isinstance), the Field interface used for the '
+                'generic parse proof (each shipped Field class is tied to it by its own contract). "Fields equal a strict reading" is only '
+                'covered by the bounded stand-in.',
+     technique=T_DEDUCTIVE,
      assumptions=['Field subclasses satisfy the Field interface used in the generic TlvModel.parse proof (tied by per-class contracts)'])
-prop('C08', title='TLV models encode to exact, minimal TLV and decode back to equal values', level='proof', bounded=[])
+prop('C08', title='TLV models encode to exact, minimal TLV and decode back to equal values', level='proof', bounded=[],
+     level_text='Unbounded proof that var-numbers are written in shortest form, that every integer/boolean/byte-string/text field announces '
+                'exactly the size it then writes (smallest legal integer width, UTF-8 length for text), that the generic encoded_length/encode '
+                'drivers write the fields in declared order at consecutive offsets with total == announced for ANY field list, and that parse '
+                'skips unknown non-critical and rejects unknown critical elements.',
+     level_note='Trusted: pyvc, z3, builtin models, the prefix-sum ghost axioms. Model-level parse(encode(m)) == m for generated classes is a '
+                'bounded stand-in, not part of the proof.',
+     technique=T_DEDUCTIVE)
